@@ -1,7 +1,8 @@
 /-
 Model of `scylla/src/routing/sharding.rs` (C11).
 
-* `shardOfImpl`  ← `Sharder::shard_of` (lines 121-125): `u64` wrapping add, `u64` shift, 128-bit multiply, high word.
+* `shardOfImpl`  ← `Sharder::shard_of` (lines 121-130): `u64` wrapping add, `checked_shl(msb_ignore).unwrap_or(0)`
+  (a shift by 64 or more bits - `msb_ignore` is a `u8` the server supplies - leaves 0), 128-bit multiply, high word.
 * `shardOfSpec`  — the algorithm as the property states it, on unbounded naturals.
 * `lowestPort`   ← `calculate_lowest_port_for_shard_in_range` (144-160), incl. the `checked_add` on `u16`.
 * `validPorts`   ← `(first_valid_port..=range_end).step_by(nr_shards)`.
@@ -19,7 +20,8 @@ def tokenNew (v : Int64) : Int64 := if v = Int64.minValue then Int64.maxValue el
 is taken in `u128` (modelled as `Nat`; it cannot overflow 128 bits, see `Props.C11.product_fits_u128`). -/
 def shardOfImpl (nrShards : Nat) (msbIgnore : UInt8) (tok : Int64) : Nat :=
   let biased : UInt64 := tok.toUInt64 + ((1 : UInt64) <<< (63 : UInt64))
-  let shifted : UInt64 := biased <<< msbIgnore.toUInt64
+  -- `checked_shl(msb_ignore as u32).unwrap_or(0)`: `None` exactly when the shift amount is >= 64
+  let shifted : UInt64 := if msbIgnore.toNat < 64 then biased <<< msbIgnore.toUInt64 else 0
   (shifted.toNat * nrShards) / 2 ^ 64
 
 /-- ScyllaDB's algorithm as stated in the property: bias by 2^63, shift left by the ignored bits
